@@ -409,6 +409,31 @@ Proof.
   split; [exact X|]. unfold accepts_lattice_layer. rewrite X. reflexivity.
 Qed.
 
+(* the LatticeConstraints object: every rejection of accepts_lattice_constraints carries over, and so do the bounds *)
+Lemma reject_lattice_constraints_obj c :
+  accepts_lattice_constraints c = false \/
+  (exists lo hi, l_omin c = Some lo /\ l_omax c = Some hi /\ (hi <= lo)%Q) ->
+  accepts_lattice_constraints_obj c = false.
+Proof.
+  unfold accepts_lattice_constraints_obj. intros [H|(lo & hi & E1 & E2 & Hle)].
+  - rewrite H. reflexivity.
+  - destruct (accepts_lattice_constraints c); [|reflexivity]. cbn [andb].
+    unfold bounds_strict_ok. rewrite E1, E2. unfold qlt_b.
+    destruct (Qle_bool hi lo) eqn:E; [reflexivity|].
+    exfalso. apply Qle_bool_iff in Hle. congruence.
+Qed.
+
+Lemma accepted_lattice_constraints_obj c :
+  accepts_lattice_constraints_obj c = true ->
+  accepts_lattice_constraints c = true /\
+  (forall lo hi, l_omin c = Some lo -> l_omax c = Some hi -> (lo < hi)%Q).
+Proof.
+  unfold accepts_lattice_constraints_obj. rewrite andb_true_iff. intros [H B]. split; [exact H|].
+  intros lo hi E1 E2. unfold bounds_strict_ok in B. rewrite E1, E2 in B. unfold qlt_b in B.
+  apply negb_true_iff in B. destruct (Qlt_le_dec lo hi) as [L|L]; [exact L|].
+  apply Qle_bool_iff in L. congruence.
+Qed.
+
 Lemma reject_lattice_unknown_interpolation c :
   l_interp_ok c = false -> accepts_lattice c = false /\ accepts_lattice_layer c = false.
 Proof.
